@@ -83,6 +83,28 @@ json.dump(m,open(p,"w"),indent=1)
 E
     [ "$res" = CAUGHT ]
     ;;
+fuzz)
+    # run only the coverage-guided stage against a seeded change
+    name="$1"; shift
+    dst="$ROOT/seeded/$name"
+    prop=$(python3 -c "import json;print(json.load(open('$dst/meta.json'))['property'])")
+    if [ -n "$(git -C /repo status --porcelain -- src Cargo.toml)" ]; then echo "refusing: /repo has local changes"; exit 2; fi
+    git -C /repo apply "$dst/patch.diff" || { echo "patch does not apply"; exit 2; }
+    t0=$(date +%s)
+    (cd "$ROOT" && ./check build >/dev/null 2>&1; fuzz/run_fuzz.sh "$prop" "$@") >"/tmp/seededfz_$name.log" 2>&1; rc=$?
+    t1=$(date +%s)
+    git -C /repo checkout -- .
+    (cd "$ROOT" && ./check build >/dev/null 2>&1)
+    if [ $rc -eq 1 ]; then res=CAUGHT; elif [ $rc -eq 0 ]; then res=MISSED; else res="ERROR($rc)"; fi
+    first=$(grep -m1 -E "^  signature:" "/tmp/seededfz_$name.log" | cut -c1-200)
+    echo "$name $prop fuzz $res $((t1-t0))s $first"
+    python3 - "$dst/meta.json" "$res" "$((t1-t0))" "$first" <<'E'
+import json,sys
+p,res,secs,first=sys.argv[1:5]
+m=json.load(open(p)); m.setdefault("checks",{})["fuzz_stage_alone"]={"result":res,"seconds":int(secs),"first":first}
+json.dump(m,open(p,"w"),indent=1)
+E
+    ;;
 runall)
     tier="${1:-quick}"
     for d in "$ROOT"/seeded/*/; do "$0" run "$(basename "$d")" "$tier"; done
